@@ -2598,7 +2598,8 @@ func (t *Topic) replyGetSub(sess *Session, asUid types.Uid, authLevel auth.Level
 				}
 				if isReader && !banned {
 					mts.ReadSeqId = sub.ReadSeqId
-					mts.RecvSeqId = sub.RecvSeqId
+					// A read message is a received message: the stored received mark may lag.
+					mts.RecvSeqId = max(sub.RecvSeqId, sub.ReadSeqId)
 				}
 
 				if t.cat != types.TopicCatFnd {
